@@ -76,6 +76,7 @@ type instRec struct {
 	typ    uint8
 	disp   bool
 	inInit bool  // created while a scope was being created (initializer phase)
+	fails  bool  // its Close() returns an error (close-error workload)
 	owner  int32 // scope serial on whose behalf it was created (-1: root scope / Build)
 	w      weak.Pointer[byte]
 	closes int32
@@ -125,17 +126,21 @@ const (
 var closedByNames = [...]string{"open", "close", "cancel", "ancestor-close", "provider-close"}
 
 type registry struct {
-	mu      sync.Mutex
-	owner   int32
-	inInit  bool
-	insts   []instRec
-	dones   []doneRec
-	inits   []initEv
-	scopes  []scopeRec
-	calls   [nFns]int
-	faults  []faultPlan
-	fired   int
-	nCloses int64
+	mu     sync.Mutex
+	owner  int32
+	inInit bool
+	// closeErrMask: type tags (bits) whose instances, when created now, will return an error
+	// from Close(); set by the harness per scope
+	closeErrMask uint16
+	nCloseErrs   int64
+	insts        []instRec
+	dones        []doneRec
+	inits        []initEv
+	scopes       []scopeRec
+	calls        [nFns]int
+	faults       []faultPlan
+	fired        int
+	nCloses      int64
 }
 
 var cur atomic.Pointer[registry]
@@ -145,6 +150,17 @@ func newRegistry() *registry {
 	cur.Store(r)
 	return r
 }
+
+func (r *registry) setCloseErr(mask uint16) {
+	r.mu.Lock()
+	r.closeErrMask = mask
+	r.mu.Unlock()
+}
+
+// closeErr is what a faulted Close returns.
+type closeErr struct{ id int32 }
+
+func (e *closeErr) Error() string { return fmt.Sprintf("injected close error of instance #%d", e.id) }
 
 func (r *registry) setOwner(serial int32, inInit bool) {
 	r.mu.Lock()
@@ -197,17 +213,25 @@ func (r *registry) track(p unsafe.Pointer, typ uint8, disp bool) base {
 	w := weak.Make((*byte)(p))
 	r.mu.Lock()
 	id := int32(len(r.insts))
-	r.insts = append(r.insts, instRec{typ: typ, disp: disp, inInit: r.inInit, owner: r.owner, w: w, closesAtReturn: -1})
+	r.insts = append(r.insts, instRec{typ: typ, disp: disp, inInit: r.inInit, fails: disp && r.closeErrMask&(1<<typ) != 0, owner: r.owner, w: w, closesAtReturn: -1})
 	r.mu.Unlock()
 	return base{id: id, reg: r}
 }
 
-func (b *base) closed() {
+func (b *base) closed() error {
 	r := b.reg
 	r.mu.Lock()
 	r.insts[b.id].closes++
 	r.nCloses++
+	fails := r.insts[b.id].fails
+	if fails {
+		r.nCloseErrs++
+	}
 	r.mu.Unlock()
+	if fails {
+		return &closeErr{b.id}
+	}
+	return nil
 }
 
 func (r *registry) captureDone(src uint8, ctx context.Context) {
@@ -247,12 +271,12 @@ type TB struct {
 }
 type GS struct{ base }
 
-func (x *SA) Close() error { x.closed(); return nil }
-func (x *SB) Close() error { x.closed(); return nil }
-func (x *SD) Close() error { x.closed(); return nil }
-func (x *SG) Close() error { x.closed(); return nil }
-func (x *TA) Close() error { x.closed(); return nil }
-func (x *GS) Close() error { x.closed(); return nil }
+func (x *SA) Close() error { return x.closed() }
+func (x *SB) Close() error { return x.closed() }
+func (x *SD) Close() error { return x.closed() }
+func (x *SG) Close() error { return x.closed() }
+func (x *TA) Close() error { return x.closed() }
+func (x *GS) Close() error { return x.closed() }
 
 // ---- constructors: distinct top-level functions (godi caches analyses by code pointer) ----
 
